@@ -30,6 +30,10 @@ pub enum WOp {
     SharedWnaf(ScalarR),
     /// own wNAF context reused for several scalars
     OwnWnaf(u8, PointR, Vec<ScalarR>),
+    /// ONE wNAF context reused for a sequence of tablings: per step (use the first / the second base,
+    /// index into NSEL for the number of scalars, scalar, scalar-first staging); every result is compared
+    /// with the same call on a fresh context
+    CtxHistory(u8, PointR, PointR, Vec<(bool, u8, ScalarR, bool)>),
     Msm(u8, Vec<(PointR, ScalarR)>),
     /// Miller loop over the shared prepared pair and one more pair, then final exponentiation
     SharedPairing(u8, u8),
@@ -69,6 +73,7 @@ fn simple_op() -> BoxedStrategy<WOp> {
         3 => (0u8..2, point_strategy(true), point_strategy(true)).prop_map(|(g, p, q)| WOp::Group(g, p, q)),
         3 => (0u8..2, point_strategy(false), scalar_strategy(), 0u8..5).prop_map(|(g, p, k, path)| WOp::Mul(g, p, k, path)),
         2 => (0u8..2, point_strategy(false), proptest::collection::vec(prop_oneof![5 => scalar_strategy(), 1 => Just(ScalarR::Zero)], 1..4)).prop_map(|(g, p, ks)| WOp::OwnWnaf(g, p, ks)),
+        2 => (0u8..2, point_strategy(false), point_strategy(false), proptest::collection::vec((prop_oneof![3 => Just(true), 1 => Just(false)], 0u8..8, scalar_strategy(), any::<bool>()), 2..6)).prop_map(|(g, p, q, st)| WOp::CtxHistory(g, p, q, st)),
         2 => (0u8..2, proptest::collection::vec((point_strategy(false), scalar_strategy()), 0..6)).prop_map(|(g, v)| WOp::Msm(g, v)),
         1 => (0u8..POOL_SUB as u8, 0u8..POOL_SUB as u8).prop_map(|(i, j)| WOp::Pairing(i, j)),
         2 => (0u8..2, any::<bool>(), 0u8..4, msg_strategy(), dst_strategy()).prop_map(|(g, ro, e, m, d)| WOp::Hash(g, ro, e, m, d)),
@@ -281,6 +286,40 @@ where
     Ok(())
 }
 
+fn ctx_history<G: Raw + HasPool>(p: &PointR, q: &PointR, steps: &[(bool, u8, ScalarR, bool)], out: &mut Vec<u8>) -> Result<(), String>
+where
+    G::F: refmodel::fld::SqrtFld,
+{
+    let pp = proj_c::<G>(&p.build::<G>());
+    let qq = proj_c::<G>(&q.build::<G>());
+    let mut w = Wnaf::new();
+    for (i, (first, nsel, k, scalar_first)) in steps.iter().enumerate() {
+        let base = if *first { pp } else { qq };
+        let n = NSEL[*nsel as usize % NSEL.len()];
+        let kr = rp(&k.build255());
+        let (r, fresh): (G::Proj, G::Proj) = if *scalar_first {
+            (cr("reused ctx.scalar(k).base(P)", || w.scalar(kr).base(base))?, cr("fresh ctx.scalar(k).base(P)", || Wnaf::new().scalar(kr).base(base))?)
+        } else {
+            (cr("reused ctx.base(P, n).scalar(k)", || w.base(base, n).scalar(kr))?, cr("fresh ctx.base(P, n).scalar(k)", || Wnaf::new().base(base, n).scalar(kr))?)
+        };
+        let (mut a, mut b) = (vec![], vec![]);
+        G::put_proj(&mut a, &r);
+        G::put_proj(&mut b, &fresh);
+        if a != b {
+            return Err(format!(
+                "step {} of a reused wNAF context ({} base, num_scalars {}, scalar {:?}, {}) returns different bits than the same call on a fresh context (dependence on call history)",
+                i,
+                if *first { "first" } else { "second" },
+                n,
+                k,
+                if *scalar_first { "scalar staged first" } else { "base staged first" }
+            ));
+        }
+        out.extend_from_slice(&a);
+    }
+    Ok(())
+}
+
 fn msm_op<G: Raw + HasPool>(v: &[(PointR, ScalarR)], out: &mut Vec<u8>) -> Result<(), String>
 where
     G::F: refmodel::fld::SqrtFld,
@@ -368,6 +407,13 @@ fn exec<'a>(op: &WOp, sh: &Shared<'a>, lo: &mut Local<'a>) -> Result<Vec<u8>, St
                 own_wnaf::<G1m>(p, ks, &mut out)?
             } else {
                 own_wnaf::<G2m>(p, ks, &mut out)?
+            }
+        }
+        WOp::CtxHistory(g, p, q, st) => {
+            if *g == 0 {
+                ctx_history::<G1m>(p, q, st, &mut out)?
+            } else {
+                ctx_history::<G2m>(p, q, st, &mut out)?
             }
         }
         WOp::Msm(g, v) => {
